@@ -35,11 +35,11 @@ const ITEMS: [(&str, &[u8]); 15] = [
     ),
 ];
 
-pub const VARIANTS: usize = 6;
+pub const VARIANTS: usize = 7;
 /// Variant E has its own alphabet: only the low 16 bits of RAX, RBX, RCX, RDX (and RSP) are
 /// written before the run, and every item consumes 8/16-bit views only or fully overwrites what
 /// it stores - results must not pick up the random upper bits of the parent registers.
-const E_VARIANT: usize = 6;
+const E_VARIANT: usize = 7;
 const ITEMS_E: [(&str, &[u8]); 9] = [
     ("mov ah,5", &[0xB4, 0x05]),
     ("mov cx,0x0306", &[0x66, 0xB9, 0x06, 0x03]),
@@ -65,6 +65,7 @@ fn vname(variant: usize) -> &'static str {
         2 | 3 => "B(only-rax-rbx-rcx-rsp-written)",
         4 => "C(all-registers-hold-one-value)",
         5 => "D(stack-and-strings-placed-by-init_stack_program_start)",
+        6 => "F(loaded-from-an-ELF-with-two-names-per-address)",
         _ => "E(only-low-16-bits-of-rax-rbx-rcx-rdx-written)",
     }
 }
@@ -102,7 +103,26 @@ fn program_of(items: &[(&'static str, &'static [u8])], idx: usize, len: usize) -
 /// variant 0/1: A (every register written) with rcx = 0 / 5; 2/3: B (only RAX RBX RCX RSP);
 /// 4: C (every general-purpose register holds the same unmapped address, RSP excepted)
 fn build(code: &[u8], variant: usize) -> Axecutor {
-    let mut ax = Axecutor::new(code, BASE, BASE).unwrap();
+    let mut ax = if variant == 6 {
+        // the same program as the text segment of a generated ELF whose symbol table gives
+        // every one of the first 48 addresses two names: whatever the trace and the call stack
+        // render for an address must not depend on anything but the file
+        let mut syms = vec![];
+        for off in 0..48u64 {
+            for tag in ["alpha", "beta"] {
+                syms.push(crate::elfgen::Sym { name: Some(format!("{tag}_{off}")), value: 0x401000 + off, shndx: 4, info: 0x12 });
+            }
+        }
+        let spec = crate::elfgen::ElfSpec {
+            e_type: 2,
+            entry: 0x401000,
+            segs: vec![crate::elfgen::Seg { p_type: crate::elfgen::PT_LOAD, flags: 5, vaddr: 0x401000, file: code.to_vec(), memsz: code.len() as u64, align: 0x1000 }],
+            syms: Some(syms),
+        };
+        Axecutor::from_binary(&crate::elfgen::write(&spec)).unwrap()
+    } else {
+        Axecutor::new(code, BASE, BASE).unwrap()
+    };
     if variant != 5 {
         ax.mem_init_zero(STK, 0x200).unwrap();
     }
@@ -136,7 +156,11 @@ fn build(code: &[u8], variant: usize) -> Axecutor {
         ax.reg_write_64(SR::RSP, STK + 0x100).unwrap();
     }
     ax.verif_set_rflags(0);
-    ax.handle_syscalls(vec![Syscall::Brk, Syscall::Exit]).unwrap();
+    // B1 runs without syscall handlers: its `syscall`s are rejected, and what the rejection
+    // says (with RSI, RDX, ... never written) is part of the compared result
+    if variant != 3 {
+        ax.handle_syscalls(vec![Syscall::Brk, Syscall::Exit]).unwrap();
+    }
     ax.set_max_instructions(40);
     ax
 }
@@ -389,6 +413,19 @@ pub fn child(maxlen: usize, out: &str) -> i32 {
     }
 }
 
+/// Confirmations are independent fresh processes (two per witness): eight witnesses at a time.
+fn par_confirm(ws: &[Value], f: &(dyn Fn(&Value) -> Result<Vec<String>, String> + Sync)) -> Vec<Result<Vec<String>, String>> {
+    let mut out = vec![];
+    for chunk in ws.chunks(8) {
+        let rs: Vec<Result<Vec<String>, String>> = std::thread::scope(|s| {
+            let hs: Vec<_> = chunk.iter().map(|w| s.spawn(move || f(w))).collect();
+            hs.into_iter().map(|h| h.join().unwrap_or_else(|_| Err("confirmation thread panicked".into()))).collect()
+        });
+        out.extend(rs);
+    }
+    out
+}
+
 pub fn run(tier: Tier) -> i32 {
     let mut run = Run::new("C20", tier.clone());
     run.rare_disagreements_tolerated = true;
@@ -423,8 +460,13 @@ pub fn run(tier: Tier) -> i32 {
             }
             Ok(parts)
         };
-        let fwd = run(false)?;
-        let bwd = run(true)?;
+        let (fwd, bwd) = std::thread::scope(|s| {
+            let b = s.spawn(|| run(true));
+            let f = run(false);
+            (f, b.join().unwrap())
+        });
+        let fwd = fwd?;
+        let bwd = bwd?;
         let mut keys = vec![];
         for d in [&fwd[3], &fwd[4]] {
             if d != "none" {
@@ -449,7 +491,7 @@ pub fn run(tier: Tier) -> i32 {
         Ok(keys)
     };
     if let Some(art) = crate::common::replay_artefact() {
-        return crate::common::finish_replay("C20", &art, &|ws| ws.iter().map(|w| confirm_fn(w)).collect());
+        return crate::common::finish_replay("C20", &art, &|ws| par_confirm(ws, &confirm_fn));
     }
     // the second process runs while this one enumerates (it is joined before the comparison)
     let child = std::process::Command::new(&exe)
@@ -520,7 +562,7 @@ pub fn run(tier: Tier) -> i32 {
     run.cov("traces_validated_against_impl", json!(cases * 4));
     run.cov("evaluations", json!(cases));
     run.cov("distinct_nontrivial", json!(distinct.len()));
-    run.cov("rule", json!("one case = (program of <= L items over 15 instructions/idioms incl. brk via the built-in handler (query, and growth by 64 KiB), a division whose divisor may be zero, int3, a load, a store and a jump through RBX that fault when RBX is unmapped; variant A: every register written, variant B: only RAX RBX RCX RSP written, the alphabet never reads another register before writing it, variant C: every general-purpose register holds the same unmapped address, variant D: as A with the stack and the argument strings placed by init_stack and init_stack_program_start next to code at 0x1000; variant E, with its own 9-item alphabet and programs <= 4: only the low 16 bits of RAX RBX RCX RDX written, items that consume 8/16-bit views only); every case runs on 3 independently constructed machines in this process (two by execute(), the third by single steps interleaved with the steps of a decoy machine) and once in a separately exec'd process that meets the cases in the opposite order; digests of registers, flags, every area, count, trace, call stack, their renderings, result and error text must be equal; distinct_nontrivial = distinct digests"));
+    run.cov("rule", json!("one case = (program of <= L items over 15 instructions/idioms incl. brk via the built-in handler (query, and growth by 64 KiB), a division whose divisor may be zero, int3, a load, a store and a jump through RBX that fault when RBX is unmapped; variant A: every register written, variant B: only RAX RBX RCX RSP written, the alphabet never reads another register before writing it, variant C: every general-purpose register holds the same unmapped address, variant D: as A with the stack and the argument strings placed by init_stack and init_stack_program_start next to code at 0x1000; variant F: as A, but the machine is loaded from a generated ELF whose symbol table names every address twice; variant E, with its own 9-item alphabet and programs <= 4: only the low 16 bits of RAX RBX RCX RDX written, items that consume 8/16-bit views only); every case runs on 3 independently constructed machines in this process (two by execute(), the third by single steps interleaved with the steps of a decoy machine) and once in a separately exec'd process that meets the cases in the opposite order; digests of registers, flags, every area, count, trace, call stack, their renderings, result and error text must be equal; distinct_nontrivial = distinct digests"));
     run.cov("exhaustive", json!(true));
     run.cov("program_max_length", json!(maxlen));
     run.cov("machines_per_case", json!(4));
@@ -528,5 +570,5 @@ pub fn run(tier: Tier) -> i32 {
     run.guard("cases", cases >= 5000, format!("{cases} cases"));
     run.guard("digests-distinct", distinct.len() > 50, format!("{} distinct digests", distinct.len()));
     run.assume("pipe descriptors are excepted by the statement and not in the alphabet; to_string() (flag-name order) is not among the listed observables");
-    run.finish(&confirm_fn)
+    run.finish_batch(&|ws| par_confirm(ws, &confirm_fn))
 }
